@@ -1,0 +1,43 @@
+//go:build verif
+
+package dkg
+
+import (
+	beaconchain "github.com/keep-network/keep-core/pkg/beacon/chain"
+	"github.com/keep-network/keep-core/pkg/beacon/event"
+	"github.com/keep-network/keep-core/pkg/beacon/gjkr"
+	"github.com/keep-network/keep-core/pkg/chain"
+	"github.com/keep-network/keep-core/pkg/protocol/group"
+)
+
+// Verification hook (build tag verif): re-exports existing identifiers only.
+
+func VerifC05DecideMemberFate(
+	playerIndex group.MemberIndex,
+	gjkrResult *gjkr.Result,
+	dkgResultChannel chan *event.DKGResultSubmission,
+	startPublicationBlockHeight uint64,
+	beaconChain beaconchain.Interface,
+	blockCounter chain.BlockCounter,
+) ([]group.MemberIndex, error) {
+	return decideMemberFate(
+		playerIndex,
+		gjkrResult,
+		dkgResultChannel,
+		startPublicationBlockHeight,
+		beaconChain,
+		blockCounter,
+	)
+}
+
+func VerifC05ResolveGroupOperators(
+	selectedOperators []chain.Address,
+	operatingGroupMembersIDs []group.MemberIndex,
+	beaconConfig *beaconchain.Config,
+) ([]chain.Address, error) {
+	return resolveGroupOperators(
+		selectedOperators,
+		operatingGroupMembersIDs,
+		beaconConfig,
+	)
+}
